@@ -51,7 +51,9 @@ CONSTANTS
   TTLPos,       \* results carry a positive TTL (TRUE) or ttl 0 (FALSE)
   D, MaxTime,   \* debounce delay in ticks; last instant
   MaxChanges, MaxUpdates, MaxCalls,
+  NPages,       \* pages of a feature list (a list call walks them; the cache is keyed by cursor, i.e. by page)
   ModernUnsub,  \* environment: modern sessions may unsubscribe a URI
+  ForeignUnsub, \* environment: legacy sessions may unsubscribe a URI they are not subscribed to
   Stepwise,          \* environment acts only at SDK quiescence (scenario discipline)
   Gates,        \* environment may hold client-side gates ...
   GateNames,    \* ... these: subset of {"inv", "usr", "put", "unsub"}
@@ -96,7 +98,10 @@ Slots == 1..MaxCalls
 Max(a, b) == IF a >= b THEN a ELSE b
 
 None == [stage |-> "none", msg |-> <<>>]
-Idle == [st |-> "idle", item |-> "", val |-> -1, hs |-> -1, hit |-> FALSE]
+Pages == 1..NPages
+PagesOf(i) == IF i \in Uris THEN {1} ELSE Pages
+NoVal == [p \in Pages |-> -1]
+Idle == [st |-> "idle", item |-> "", page |-> 0, val |-> NoVal, hs |-> -1, hit |-> FALSE]
 OnSessions == {s \in Sessions : sess[s] = "on"}
 
 \* entitlement as the protocol defines it (what the client asked for and was granted), not what the
@@ -119,7 +124,7 @@ Init ==
   /\ chan = [s \in Sessions |-> <<>>]
   /\ nq = [s \in Sessions |-> <<>>]
   /\ hnd = [s \in Sessions |-> None]
-  /\ cache = [s \in Sessions |-> [i \in Items |-> -1]]
+  /\ cache = [s \in Sessions |-> [i \in Items |-> NoVal]]
   /\ call = [s \in Sessions |-> [c \in Slots |-> Idle]]
   /\ handled = [s \in Sessions |-> [i \in Items |-> -1]]
   /\ gates = {}
@@ -264,7 +269,9 @@ Subscribe(s, u) ==
 \* processes the cancellation asynchronously (FinishUnsub) and its UnsubscribeHandler (user code) may be slow:
 \* gate "unsub".
 Unsubscribe(s, u) ==
-  /\ EnvOK /\ sess[s] = "on" /\ u \in usub[s]
+  \* a legacy client may send resources/unsubscribe for a URI it is not subscribed to (a no-op for everybody);
+  \* ClientSession.Unsubscribe of a 2026-07-28 session does nothing then
+  /\ EnvOK /\ sess[s] = "on" /\ (u \in usub[s] \/ (s \in Legacy /\ ForeignUnsub))
   /\ s \in Modern => ModernUnsub
   /\ usub' = [usub EXCEPT ![s] = @ \ {u}]
   /\ IF s \in Modern
@@ -285,13 +292,21 @@ FinishUnsub(s, u) ==
 \* ---------------------------------------------------------------------------
 \* client: list / read calls and the result cache
 
+\* a list call walks the pages in order; a page whose cursor has a live cache entry is taken from the cache
+\* (2026-07-28 sessions, positive ttl), the first one that has not is requested from the server
+CacheHit(s, i, p) == s \in Modern /\ TTLPos /\ cache[s][i][p] >= 0
+RECURSIVE Walk(_, _, _, _)
+Walk(s, i, p, val) ==
+  IF p \notin PagesOf(i) THEN [st |-> "done", page |-> p - 1, val |-> val]
+  ELSE IF CacheHit(s, i, p) THEN Walk(s, i, p + 1, [val EXCEPT ![p] = cache[s][i][p]])
+  ELSE [st |-> "req", page |-> p, val |-> val]
+
 ListStart(s, c, i) ==
   /\ EnvOK /\ sess[s] = "on" /\ call[s][c].st = "idle"
   /\ c > 1 => call[s][c - 1].st # "idle"
-  /\ call' = [call EXCEPT ![s][c] =
-                IF s \in Modern /\ TTLPos /\ cache[s][i] >= 0
-                  THEN [st |-> "done", item |-> i, val |-> cache[s][i], hs |-> handled[s][i], hit |-> TRUE]
-                  ELSE [st |-> "req", item |-> i, val |-> -1, hs |-> handled[s][i], hit |-> FALSE]]
+  /\ LET w == Walk(s, i, 1, NoVal) IN
+       call' = [call EXCEPT ![s][c] = [st |-> w.st, item |-> i, page |-> w.page, val |-> w.val, hs |-> handled[s][i],
+                                       hit |-> (w.st = "done")]]
   /\ UNCHANGED <<now, ver, ref, refDue, orph, cbs, sess, lsub, rsub, usub, pun, chan, nq, hnd, cache, handled, gates, race, budget, ent, got, bad>>
 
 ServeList(s, c) ==
@@ -309,14 +324,18 @@ Read(s) ==
        /\ IF m.t = "n"
             THEN /\ nq' = [nq EXCEPT ![s] = Append(@, m)]
                  /\ UNCHANGED call
-            ELSE /\ call' = [call EXCEPT ![s][m.slot] = [@ EXCEPT !.st = "arrived", !.val = m.val]]
+            ELSE /\ call' = [call EXCEPT ![s][m.slot] = [@ EXCEPT !.st = "arrived", !.val[@.page] = m.val]]
                  /\ UNCHANGED nq
   /\ UNCHANGED <<now, ver, ref, refDue, orph, cbs, sess, lsub, rsub, usub, pun, hnd, cache, handled, gates, race, budget, ent, got, bad>>
 
+\* the page is put into the cache under its cursor after the call returned from the middleware chain; the walk
+\* then goes on with the next page (pages other than this one are as they were)
 CachePut(s, c) ==
-  /\ call[s][c].st = "arrived" /\ ~Held("put", s)
-  /\ call' = [call EXCEPT ![s][c].st = "done"]
-  /\ cache' = IF s \in Modern THEN [cache EXCEPT ![s][call[s][c].item] = call[s][c].val] ELSE cache
+  LET k == call[s][c]
+      w == Walk(s, k.item, k.page + 1, k.val) IN
+  /\ k.st = "arrived" /\ ~Held("put", s)
+  /\ call' = [call EXCEPT ![s][c] = [k EXCEPT !.st = w.st, !.page = w.page, !.val = w.val]]
+  /\ cache' = IF s \in Modern THEN [cache EXCEPT ![s][k.item][k.page] = k.val[k.page]] ELSE cache
   /\ UNCHANGED <<now, ver, ref, refDue, orph, cbs, sess, lsub, rsub, usub, pun, chan, nq, hnd, handled, gates, race, budget, ent, got, bad>>
 
 \* the in-order dispatcher takes the next notification and runs the SDK's handler: first the cache
@@ -325,7 +344,7 @@ Invalidate(s) ==
   /\ hnd[s].stage = "none" /\ nq[s] # <<>> /\ ~Held("inv", s)
   /\ hnd' = [hnd EXCEPT ![s] = [stage |-> "inval", msg |-> Head(nq[s])]]
   /\ nq' = [nq EXCEPT ![s] = Tail(@)]
-  /\ cache' = [cache EXCEPT ![s] = [i \in Items |-> IF i \in ItemsOf(Head(nq[s]).topic) THEN -1 ELSE @[i]]]
+  /\ cache' = [cache EXCEPT ![s] = [i \in Items |-> IF i \in ItemsOf(Head(nq[s]).topic) THEN NoVal ELSE @[i]]]
   /\ UNCHANGED <<now, ver, ref, refDue, orph, cbs, sess, lsub, rsub, usub, pun, chan, call, handled, gates, race, budget, ent, got, bad>>
 
 \* ... then the user's handler runs
@@ -401,7 +420,8 @@ OnlyEntitled == "OnlyEntitled" \notin bad
 NoneWhenDisabled == "NoneWhenDisabled" \notin bad
 UpdatedExactlySubscribers == "UpdatedExactlySubscribers" \notin bad
 \* a list or read issued after the user handler saw a notification reflects state at least that new
-Fresh == \A s \in Sessions, c \in Slots : call[s][c].st = "done" => call[s][c].val >= call[s][c].hs
+Fresh == \A s \in Sessions, c \in Slots : call[s][c].st = "done" =>
+            \A p \in PagesOf(call[s][c].item) : call[s][c].val[p] >= call[s][c].hs
 ForgottenOnClose == \A s \in Sessions : sess[s] = "closed" =>
                        (\A n \in Notifs : s \notin lsub[n]) /\ (\A u \in Uris : s \notin rsub[u])
 
